@@ -62,8 +62,10 @@ def _ref_def_target(dest: str, title: str | None) -> tuple[str, str | None]:
 def _render_link_dest(dest: str) -> str:
     """
     A link destination that contains whitespace or unbalanced parentheses is only
-    valid inside angle brackets.
+    valid inside angle brackets. A literal backslash in front of punctuation (or at the
+    end) would be read as an escape, so it is written as an escaped backslash.
     """
+    dest = re.sub(r"\\(?=[!-/:-@\[-`{-~]|$)", r"\\\\", dest)
     depth = 0
     balanced = True
     for c in dest:
